@@ -472,6 +472,14 @@ func impliedFacts(cond ssa.Value, outcome bool, depth int) []branchFact {
 		outcome = !outcome
 	}
 	out := []branchFact{{inner, outcome}}
+	// errors.Is(x, Sentinel) held: x is not nil (a package-level sentinel error is never nil)
+	if c, isC := inner.(*ssa.Call); isC && outcome && len(c.Call.Args) == 2 && refOf(c.Common()).is("errors", "", "Is") {
+		if ld, isL := c.Call.Args[1].(*ssa.UnOp); isL && ld.Op == token.MUL {
+			if _, isG := ld.X.(*ssa.Global); isG {
+				out = append(out, branchFact{&ssa.BinOp{Op: token.NEQ, X: c.Call.Args[0], Y: ssa.NewConst(nil, c.Call.Args[0].Type())}, true})
+			}
+		}
+	}
 	ph, ok := inner.(*ssa.Phi)
 	if !ok || depth > 3 {
 		return out
